@@ -52,13 +52,13 @@ type msgSpec struct {
 	G, J int
 
 	Method, Scheme, Host, Path, Query, Proto, Remote string
-	ReqHost                                           string
-	Status                                            int
-	Reason                                            string
-	API                                               bool
-	Headers                                           []kv
-	CL                                                int64
-	TE                                                []string
+	ReqHost                                          string
+	Status                                           int
+	Reason                                           string
+	API                                              bool
+	Headers                                          []kv
+	CL                                               int64
+	TE                                               []string
 
 	BodySize int
 	BodySeed int64 // behaviour of the underlying body
